@@ -433,6 +433,10 @@ def run(scn, st):
             if op.get("unmergeable"):
                 # is the link with the insertion a join of a chain?
                 bad_join = any(l[5] == op["unmergeable"] for l in pre.linear_joins())
+                fb = op["unmergeable"].split("\t")
+                if any(fb[1] in c or fb[3] in c for c in cycles):
+                    # (a ring: where it is cut is left open, the link may be the one that is not merged over)
+                    return
                 if bad_join:
                     st.count("probe.unmergeable_chain")
                     if o.ok:
